@@ -103,6 +103,10 @@ class Playfield(SystemWideDevice):
         del source
         return True
 
+    @staticmethod
+    def release_reserved_slot():
+        """Do nothing because the playfield does not reserve slots."""
+
     def add_missing_balls(self, balls):
         """Notify the playfield that it probably received a ball which went missing elsewhere."""
         # TODO: add incoming ball only and wait for confirm or timeout
